@@ -21,4 +21,5 @@ func checkC14(c *core.Ctx) {
 	c.Assumption("Go's strings package with the documented argument order (Concat sep xs, HasPrefix p s, TrimSuffix suf s, Split sep s, SplitN n sep s) is the oracle for pkg/strings")
 	c.Assumption("display form for SInterP: %d for every integer kind, %f for floats, the string itself, %v otherwise")
 	runDriver(c, sc, "c14", nil, 20*time.Minute, c.Tier)
+	c14FoiConformance(c, sc)
 }
